@@ -14,7 +14,7 @@ def appendix_d(logpath):
            "Every change under `/verif/seeded/` was applied to a scratch copy and *all* 20 quick checks were run on it",
            "(`selftest/run_seeded.py --all`). `own` = the check of the property the change was written against; `also` = other checks",
            "that report it (because they share the broken premise, A.2 item 4). Round: 0 = original defect re-introduced, 1–3 = first",
-           "round (engine core only existed), 4–6 = second round (outside the anchors / cooperating edits), 7–9 = third round, 10–12 = fourth (value-level), 13–15 = fifth (improvements gone wrong), 16–18 = sixth (indirection), 19–21 = seventh (semantic subtleties), 22–24 = eighth (edge paths and evolution), 25–27 = ninth (the fix that breaks), 28–30 = tenth (informed adversaries), 31–33 = eleventh (informed, second attempt), 34–36 = twelfth (plain), 37–39 = thirteenth (secondary paths), 40–42 = fourteenth (plain), 43–45 = fifteenth (feature commits), 46–48 = sixteenth (informed, third attempt), 49–51 = seventeenth (plain, second idea).", "",
+           "round (engine core only existed), 4–6 = second round (outside the anchors / cooperating edits), 7–9 = third round, 10–12 = fourth (value-level), 13–15 = fifth (improvements gone wrong), 16–18 = sixth (indirection), 19–21 = seventh (semantic subtleties), 22–24 = eighth (edge paths and evolution), 25–27 = ninth (the fix that breaks), 28–30 = tenth (informed adversaries), 31–33 = eleventh (informed, second attempt), 34–36 = twelfth (plain), 37–39 = thirteenth (secondary paths), 40–42 = fourteenth (plain), 43–45 = fifteenth (feature commits), 46–48 = sixteenth (informed, third attempt), 49–51 = seventeenth (plain, second idea), 52–54 = eighteenth (modernisation gone wrong).", "",
            "| change | what it does | own | also reported by |", "|---|---|---|---|"]
     n = own_ok = 0
     for l in rows:
